@@ -565,7 +565,14 @@ func (e *Engine) valEq(a, b Val, t types.Type) *smt.Term {
 			return X.True
 		}
 	case *types.Interface:
-		// mixed interface / concrete comparisons are normalised by go/ssa via MakeInterface
+		// mixed interface / concrete comparisons are normalised by go/ssa via MakeInterface;
+		// comparison with nil looks at the dynamic type only
+		if e.isNilIface(a) {
+			return X.Eq(b.C[0], X.Const(0, 32))
+		}
+		if e.isNilIface(b) {
+			return X.Eq(a.C[0], X.Const(0, 32))
+		}
 	}
 	if len(a.C) != len(b.C) {
 		bail("== on values of different shape (%s)", t)
@@ -713,4 +720,8 @@ func (e *Engine) snapshotBytes(st *State, s Val) *smt.Term {
 	}
 	e.setHeap(st, key, X.Store(h, ref, dst))
 	return ref
+}
+
+func (e *Engine) isNilIface(v Val) bool {
+	return len(v.C) == 2 && v.C[0].IsConst() && v.C[0].V == 0 && v.C[1].IsConst() && v.C[1].V == 0
 }
